@@ -136,10 +136,12 @@ def scenario(cfg, n_resume, seed2, second_gen=False):
             idblob.SHARED = mp.Value("q", 0)      # cross-process evaluation counter (integer pools evaluate in workers)
             s3, t3, like3, pt3 = _build(c, tmp)
             np.random.seed(seed2 + k)
+            # every other resume asks for MORE effective samples than the run that wrote the checkpoint
+            nt3 = c["n_total"] * (3 if (k % 2 == 1 or k == len(saves) - 1) else 1)
             try:
                 with attach.Hooks() as hk:
                     attach.iteration_budget(hk, 400)
-                    s3.run(n_total=c["n_total"], progress=False, resume_state_path=sv["path"])
+                    s3.run(n_total=nt3, progress=False, resume_state_path=sv["path"])
             except Exception as e:
                 out["bad"].append(("resume-raises", f"run(resume_state_path={os.path.basename(sv['path'])}) raised {type(e).__name__}: {e}\n{fmt_exc()[-500:]}"))
                 continue
@@ -172,8 +174,9 @@ def scenario(cfg, n_resume, seed2, second_gen=False):
                 out["bad"].append(("resume-beta-decreases", f"beta decreases after resume: {betas[max(0, hl - 2):hl + 2]}"))
             # postconditions (same as an uninterrupted run)
             _, lwn, lz, ess = mis_ref(H3["logl"], H3["beta"], H3["logz"], 1.0)
-            if 1 - betas[-1] >= 1e-4 or float(ess) < c["n_total"] * (1 - 1e-9):
-                out["bad"].append(("resume-postcondition", f"resumed run ended at beta={betas[-1]}, ESS={float(ess):.1f} < n_total={c['n_total']}"))
+            if 1 - betas[-1] >= 1e-4 or float(ess) < nt3 * (1 - 1e-9):
+                out["bad"].append(("resume-postcondition", f"run(n_total={nt3}, resume_state_path=...) ended at beta={betas[-1]}, ESS={float(ess):.1f} "
+                                   f"(the checkpoint was written by a run with n_total={c['n_total']})"))
             ev = s3.evidence()[0]
             if abs(ev - float(lz)) > 1e-8 * (1 + abs(float(lz))):
                 out["bad"].append(("resume-evidence", f"evidence() {ev} != reference {float(lz)}"))
